@@ -409,8 +409,10 @@ func (n numDatum) Literal(context string) string {
 		return "-Infinity"
 	}
 
-	// ... then the easy ones.
-	return fmt.Sprintf("%v", n.num)
+	// ... then the easy ones.  XPATH never uses exponent notation: integers
+	// have no decimal point, anything else the shortest decimal form that
+	// uniquely identifies the number.
+	return strconv.FormatFloat(n.num, 'f', -1, 64)
 }
 
 func (n numDatum) Nodeset(context string) []xutils.XpathNode {
